@@ -434,7 +434,7 @@ class CursorClient(Client):
         if isinstance(target, ast.Name):
             name = target.id
             s = s.drop(('snap', name)).drop(('peek', name)).drop(('peekfn', name)).drop(('bool', name)).drop(('val', name)) \
-                 .drop(('intfact', name)).drop(('lsnap', name)).drop(('cond', 'len', name)).drop(('nonempty', name)).drop(('elem', name))
+                 .drop(('intfact', name)).drop(('lsnap', name)).drop(('cond', 'len', name)).drop(('nonempty', name)).drop(('elem', name)).drop(('cnt', name))
             if name in self.cursors and not isinstance(value, tuple):
                 # creation / re-binding of a cursor
                 return [self._bind_cursor(s, name, value, stmt)]
@@ -483,6 +483,8 @@ class CursorClient(Client):
                 iv = self._int_fact(s, value)
                 if iv is not None:
                     s = s.set(('intfact', name), iv)
+                if isinstance(value, ast.Constant) and isinstance(value.value, int) and not isinstance(value.value, bool) and value.value >= 0:
+                    s = s.set(('cnt', name), min(value.value, 2))
                 if isinstance(value, ast.Constant) and value.value is None:
                     s = s.set(('val', name), NONE)
                 elif isinstance(value, ast.Constant) and not value.value:
@@ -617,7 +619,13 @@ class CursorClient(Client):
         self.check_reads(s, stmt.value, stmt)
         if isinstance(stmt.target, ast.Name):
             n = stmt.target.id
-            s = s.drop(('snap', n)).drop(('peek', n)).drop(('bool', n)).drop(('val', n)).drop(('intfact', n))
+            cnt = s.get(('cnt', n))
+            s = s.drop(('snap', n)).drop(('peek', n)).drop(('bool', n)).drop(('val', n)).drop(('intfact', n)).drop(('cnt', n))
+            # small counter domain: a local that starts at a constant >= 0 and only grows by positive constants
+            # (values 0, 1, "2 or more") - enough to correlate `count == 0` with "the loop never ran"
+            k = self.p.try_const(self.f, stmt.value)
+            if cnt is not None and isinstance(stmt.op, ast.Add) and isinstance(k, int) and not isinstance(k, bool) and k > 0:
+                s = s.set(('cnt', n), min(cnt + k, 2)).set(('bool', n), True)
         return [s]
 
     # ---------------------------------------------------------------- calls
@@ -710,6 +718,8 @@ class CursorClient(Client):
         K = lambda st, kind: st.set(('lastkind',), kind)
         s = s.drop(('lastkind',))
         # carriers
+        if isinstance(expr, ast.Name) and s.get(('cnt', expr.id)) is not None and s.get(('bool', expr.id)) is None and s.get(('val', expr.id)) is None:
+            return ([K(s, T)], []) if s.get(('cnt', expr.id)) > 0 else ([], [K(s, FNN)])
         if isinstance(expr, ast.Name):
             b = s.get(('bool', expr.id))
             v = s.get(('val', expr.id))
@@ -810,6 +820,26 @@ class CursorClient(Client):
     def _compare1(self, s, expr):
         if len(expr.ops) == 1:
             a, b, op = expr.left, expr.comparators[0], expr.ops[0]
+            # counter  <op>  small constant
+            for x, y, flip in ((a, b, False), (b, a, True)):
+                if isinstance(x, ast.Name) and s.get(('cnt', x.id)) is not None:
+                    c_ = self.p.try_const(self.f, y)
+                    if isinstance(c_, int) and not isinstance(c_, bool):
+                        v = s.get(('cnt', x.id))
+                        opn = type(op)
+                        if flip:
+                            opn = {ast.Lt: ast.Gt, ast.Gt: ast.Lt, ast.LtE: ast.GtE, ast.GtE: ast.LtE}.get(opn, opn)
+                        res_ = None
+                        if v < 2:
+                            res_ = {ast.Eq: v == c_, ast.NotEq: v != c_, ast.Lt: v < c_, ast.LtE: v <= c_, ast.Gt: v > c_, ast.GtE: v >= c_}.get(opn)
+                        elif c_ <= 1:
+                            res_ = {ast.Eq: False, ast.NotEq: True, ast.Lt: False, ast.LtE: False, ast.Gt: True, ast.GtE: True}.get(opn)
+                        elif c_ == 2:
+                            res_ = {ast.Lt: False, ast.GtE: True}.get(opn)
+                        if res_ is True:
+                            return [s], []
+                        if res_ is False:
+                            return [], [s]
             # cursor.pos  ==/!=  snapshot
             for x, y in ((a, b), (b, a)):
                 c = self.is_pos(x)
